@@ -194,3 +194,34 @@ package lazy
 //@   requires d != nil && cache != nil && 0 <= start && start <= end && end <= len(haystack)
 //@   modifies @searchState
 //@   ensures result == dfaRevStart(d, haystack, start, end) && (result == -1 || (start <= result && result <= end))
+
+// ---- give-up path of the reverse search (C14: "returns the reference answer or explicitly declines") ----
+// revRef(n, h, lo, end): the reference answer of a reverse search with the (reversed, anchored) automaton n over
+// h[lo:end] read backwards from end: the leftmost s in [lo, end] such that h[s:end] is accepted, or -1.
+// The fallback has no way to decline (the callers read -1 as "no match"), so it must return revRef itself.
+//@ uninterpreted spec func revRef(n *nfa.NFA, h []byte, lo int, end int) int
+//@ func (*DFA).nfaFallbackReverse
+//@   props C14
+//@   requires d != nil && d.pikevm != nil && 0 <= start && start <= end && end <= len(haystack)
+//@   modifies family H:nfa.PikeVM, family E:nfa.searchThread, family E:int, family E:uint32, family H:internal/sparse.SparseSet
+//@   ensures result == revRef(d.nfa, haystack, start, end)
+//@   ensures -1 <= result && result <= end
+
+// ---- anti-quadratic guard of the limited reverse scan (C05): no byte below max(start, minStart) is read ----
+//@ trusted func (*DFA).determinize
+//@   requires d != nil && cache != nil && current != nil
+//@   modifies @searchState
+//@   ensures cache.stride == old(cache.stride)
+//@ trusted func (*DFA).getStartStateForReverse
+//@   requires d != nil && cache != nil
+//@   modifies @searchState
+//@   ensures cache.stride == old(cache.stride)
+//@ trusted func containsNFAMatch
+//@ trusted func isCacheCleared
+//@ func (*DFA).SearchReverseLimited
+//@   props C05 C07
+//@   requires d != nil && d.pikevm != nil && cache != nil && cache.stride >= 0 && 0 <= start
+//@   modifies @searchState
+//@   ensures result >= -2
+//@   loop 1: invariant (lowerBound - 1 <= at || at == end - 1) && at < end && cache.stride >= 0 && end <= len(haystack) && 0 <= start && start <= lowerBound && ftLen == len(ft) && -1 <= lastMatch
+//@   loop 1: invariant lowerBound == ite(minStart > start, minStart, start)
